@@ -140,7 +140,8 @@ theorem rfindLoop_eos (g : Bool) (ast : Ast) (res : List ReAtom) (hres : cAtoms 
   | zero => intro i _ h; omega
   | succ f ih =>
     intro i hi hf
-    simp only [rfindLoop]
+    rw [rfindLoop_unfold]
+    simp only []
     by_cases hlt : i + 1 ≤ v.length
     · rw [if_pos hlt]
       have hspec := findAt_eos_spec g ast res hres v (i + 1) hlt
